@@ -15,7 +15,7 @@ TEXT = ("(a) run-time contract on every CaseNode._merge call: the result is the 
 
 
 def post(nmfu, c, prog, flags):
-    if not prog["name"].startswith(("case/", "caseE/", "caseM/")):
+    if not prog["name"].startswith(("case/", "caseE/", "caseM/", "caseT/", "caseN/")):
         return None
     try:
         spec = case_ref.spec_from_source(nmfu, prog["src"])
